@@ -388,7 +388,7 @@ func C07(p *ir.Program, r *report.R) {
 			okRec := false
 			for _, b := range fn.Blocks {
 				for _, in := range b.Instrs {
-					if ph, ok := in.(*ssa.Phi); ok && ph.Comment == "accInput" {
+					if ph, ok := in.(*ssa.Phi); ok && ir.LocalName(ph.Parent(), ph.Comment) == "accInput" {
 						for _, e := range ph.Edges {
 							if ir.Match("*.(*types.AccountInput)#0", ir.Render(e)) {
 								okRec = true
